@@ -15,6 +15,15 @@ CONVEX = ("L1", "L1_plus_L2", "WeightedL1", "IndicatorBox", "PositiveConstraint"
           "WeightedGroupL2", "WeightedL1GroupL2", "SLOPE")
 
 
+def norm2(t):
+    """Euclidean norm without underflow/overflow (numpy's 1-D norm squares the entries first)."""
+    t = np.asarray(t, dtype=float).ravel()
+    m = float(np.max(np.abs(t))) if t.size else 0.0
+    if m == 0.0 or not np.isfinite(m):
+        return m
+    return m * float(np.sqrt(np.sum((t / m) ** 2)))
+
+
 def _w(spec, j):
     return float(spec["weights"][j]) if "weights" in spec and spec["weights"] is not None else 1.0
 
@@ -122,16 +131,16 @@ def value(spec, w):
     if n in SEPARABLE:
         return float(sum(float(phi(spec, w[j], j)) for j in range(len(w))))
     if n in ROW:
-        return float(sum(float(radial(spec, np.linalg.norm(w[j]), j)) for j in range(w.shape[0])))
+        return float(sum(float(radial(spec, norm2(w[j]), j)) for j in range(w.shape[0])))
     if n in GROUP:
         ptr, ind = spec["grp_ptr"], spec["grp_indices"]
         if n == "WeightedGroupL2":
             if spec.get("positive") and np.any(w < 0):
                 return INF
             return float(sum(spec["alpha"] * spec["weights"][g]
-                             * np.linalg.norm(w[ind[ptr[g]:ptr[g + 1]]])
+                             * norm2(w[ind[ptr[g]:ptr[g + 1]]])
                              for g in range(len(ptr) - 1)))
-        tot = sum(spec["weights_groups"][g] * np.linalg.norm(w[ind[ptr[g]:ptr[g + 1]]])
+        tot = sum(spec["weights_groups"][g] * norm2(w[ind[ptr[g]:ptr[g + 1]]])
                   for g in range(len(ptr) - 1))
         tot += np.sum(np.asarray(spec["weights_features"]) * np.abs(w))
         return float(spec["alpha"] * tot)
@@ -186,20 +195,20 @@ def subdiff_distance_block(spec, t, g, j=0):
     g = np.asarray(g, dtype=float)
     n = spec["name"]
     positive = bool(spec.get("positive")) and n == "WeightedGroupL2"
-    r = np.linalg.norm(t)
+    r = norm2(t)
     if positive:
         if np.any(t < 0):
             return INF
         c = dradial(spec, r, j)
         if r == 0:
             q = np.maximum(-g, 0.0)
-            return max(0.0, np.linalg.norm(q) - c)
+            return max(0.0, norm2(q) - c)
         res = np.where(t > 0, -g - c * t / r, np.maximum(-g, 0.0))
-        return float(np.linalg.norm(res))
+        return norm2(res)
     if r == 0:
         d0 = dradial(spec, 0.0, j)
-        return 0.0 if d0 == INF else max(0.0, float(np.linalg.norm(g)) - d0)
-    return float(np.linalg.norm(g + dradial(spec, r, j) * t / r))
+        return 0.0 if d0 == INF else max(0.0, norm2(g) - d0)
+    return norm2(g + dradial(spec, r, j) * t / r)
 
 
 def is_penalized(spec, n_features):
